@@ -75,6 +75,19 @@ def _(self: Union[V1(1), V1(2), V1(3), V1(4)]) -> bytes:
     sample_with(lambda rnd: {"self": RKHTv1([bytes(rnd.getrandbits(8) for _ in range(32)) for _ in range(rnd.randrange(1, 5))])})
 
 
+@contract("spsdk.utils.crypto.rkht:RKHTv1.set_rkh")
+def _(self: Union[V1(0), V1(1), V1(2), V1(3), V1(4)], index: OneOf(0, 1, 2, 3, 4), rkh: Bytes(lo=0, hi=64)):
+    # slot `index` takes the hash, every other slot that existed keeps its hash, slots opened in between are zero - in whatever order slots are set
+    let(n=len(self.rkh_list), before=list(self.rkh_list))
+    raises(SPSDKError, index > 3 or (n > 0 and len(rkh) != 32), label="slot-beyond-the-table-or-wrong-hash-size")
+    ensures(len(self.rkh_list) == (n if n > index else index + 1), label="table-grows-only-up-to-the-slot")
+    ensures(self.rkh_list[index] == rkh, label="slot-takes-the-hash")
+    ensures(all(self.rkh_list[i] == (before[i] if i < n else bytes(32)) for i in range(len(self.rkh_list)) if i != index), label="other-slots-kept-gaps-zero")
+    modifies(self.rkh_list)
+    sample_with(lambda rnd: {"self": RKHTv1([bytes(rnd.getrandbits(8) for _ in range(32)) for _ in range(rnd.randrange(0, 5))]), "index": rnd.randrange(0, 5),
+                             "rkh": bytes(rnd.getrandbits(8) for _ in range(rnd.choice([32, 32, 32, 31])))})
+
+
 def V21(k, hl):
     return Obj(RKHTv21, rkh_list=ListOf(Bytes(hl), k))
 
